@@ -83,6 +83,17 @@ def rule_writer(ctx, R):
     # digit = num % base ; num /= base, same base, base = new(param as isize)
     org = Origins(b, fb)
     roles = Roles(b, fb, param_roles=PR(b))
+    # the loop runs while the remaining number is not zero
+    evw = Events(b, fb, roles=roles)
+    stay, leave = [], []
+    for gb in loop:
+        tt = b.blocks[gb]["term"]
+        if tt["k"] == "switch":
+            for s_ in cfg.succ[gb]:
+                lab = evw.generic_edge(gb, tt, s_) or ""
+                if lab.startswith("BR[BigNum::is_zero("):
+                    (leave if lab.endswith("=1") else stay).append((gb, s_, s_ in loop))
+    R.check(len(stay) == 1 and len(leave) == 1 and stay[0][2] and not leave[0][2], "writer:loop_condition", "digits are produced while the remaining number is not zero (the loop is left exactly when it is zero): stay %s leave %s" % ([x[2] for x in stay], [x[2] for x in leave]), b.span)
     rems = [(bi, b.blocks[bi]["term"]) for bi in loop if b.blocks[bi]["term"]["k"] == "call" and callee_name(b.blocks[bi]["term"]["f"], fb) == "core::ops::arith::Rem::rem"]
     divs = [(bi, b.blocks[bi]["term"]) for bi in loop if b.blocks[bi]["term"]["k"] == "call" and callee_name(b.blocks[bi]["term"]["f"], fb) == "core::ops::arith::DivAssign::div_assign"]
     vars_ = Vars(b)
